@@ -13,4 +13,10 @@ package config
 //@   ensures [uint64] forall n uint64, d *uint64 :: src == any(n) && dest == any(d) ==> (n != 0 ==> *d == n) && (n == 0 ==> *d == old(*d))
 //@   ensures [string] forall n string, d *string :: src == any(n) && dest == any(d) ==> (n != "" ==> *d == n) && (n == "" ==> *d == old(*d))
 //@   ensures [bool] forall n bool, d *bool :: src == any(n) && dest == any(d) ==> (n ==> *d) && (!n ==> *d == old(*d))
+//@   ensures [frame-int] forall d *int :: dest != any(d) ==> *d == old(*d)
+//@   ensures [frame-duration] forall d *time.Duration :: dest != any(d) ==> *d == old(*d)
+//@   ensures [frame-uint64] forall d *uint64 :: dest != any(d) ==> *d == old(*d)
+//@   ensures [frame-string] forall d *string :: dest != any(d) ==> *d == old(*d)
+//@   ensures [frame-bool] forall d *bool :: dest != any(d) ==> *d == old(*d)
+//@   ensures [frame-float] forall d *float64 :: dest != any(d) ==> *d == old(*d)
 //@   modifies heap(int), heap(time.Duration), heap(uint64), heap(string), heap(bool), heap(float64)
